@@ -7,6 +7,7 @@ import (
 	"pgregory.net/rapid"
 
 	"verif/harness/core"
+	"verif/harness/der"
 )
 
 // ---- C07: structured RFC 5280 extensions encode exactly the configured content
@@ -16,6 +17,8 @@ var c07Kinds = []string{core.KSKI, core.KKU, core.KSAN, core.KBC, core.KCP, core
 type c07Single struct {
 	Ext  core.Extension
 	Leaf bool // put the extension on a leaf below a CA (issuer key differs from subject key)
+	// CASKI: the CA above the leaf carries this raw subjectKeyIdentifier (an arbitrary identifier, not the hash of its key)
+	CASKI *core.Raw `json:",omitempty"`
 }
 
 func TestC07(t *testing.T) {
@@ -60,6 +63,10 @@ func TestC07(t *testing.T) {
 		w := World{Ents: []core.Entity{{File: "ca.yaml", Subject: []core.RDN{{Key: "CN", Value: "C07 CA"}}}}}
 		if c.Leaf {
 			w.Ents = append(w.Ents, core.Entity{File: "leaf.yaml", Subject: []core.RDN{{Key: "CN", Value: "C07 leaf"}}, Issuer: "ca", Extensions: []core.Extension{c.Ext}})
+			if c.CASKI != nil {
+				// the issuer carries a hand-picked subject key identifier: a hashed authority key id is still the hash of the issuer's key
+				w.Ents[0].Extensions = []core.Extension{{Kind: core.KSKI, Raw: c.CASKI}}
+			}
 		} else {
 			w.Ents[0].Extensions = []core.Extension{c.Ext}
 		}
@@ -140,7 +147,11 @@ func TestC07(t *testing.T) {
 		case 1:
 			e.Critical = core.BoolP(false)
 		}
-		return c07Single{Ext: e, Leaf: rapid.Bool().Draw(t, "leaf")}
+		c := c07Single{Ext: e, Leaf: rapid.Bool().Draw(t, "leaf")}
+		if c.Leaf && rapid.IntRange(0, 2).Draw(t, "ca-ski") == 0 {
+			c.CASKI = core.Bin(der.Octets(rapid.SliceOfN(rapid.Byte(), 1, 24).Draw(t, "ca-ski-bytes")))
+		}
+		return c
 	}
 	core.Rapid(r, "single", r.Pick(2500, 500000), genSingle, single)
 	genWorld := func(t *rapid.T) extCase {
